@@ -169,10 +169,10 @@ def Ty.isMap : Ty → Bool | .mapL | .mapS => true | _ => false
 def Ty.isStruct : Ty → Bool | .structL | .structS => true | _ => false
 
 /-- the pairs `get_caster(from, to)` accepts for a null (for the others calling the caster raises AnalysisException or
-NotImplementedError whatever the value): the same type; to binary only from string; to an array / map / struct only from
+NotImplementedError whatever the value): the same type; from NullType to every type; to binary only from string; to an array / map / struct only from
 an array / map / struct; to every other type from every type -/
 def castable (from_ to : Ty) : Bool :=
-  from_ == to ||
+  from_ == to || from_ == .null ||        -- (a column of NullType casts to every type: REPAIRED for binary / array / map / struct)
   match to with
   | .binary => from_ == .string
   | .arrayL | .arrayS => from_.isArray
